@@ -586,6 +586,16 @@ def engine_D(name, kinds, nitems, maxp, tier, seed, wd_name=None, model=True, mo
                     cases.append({"case": [kind, "sweep-big", size, rep, j], "kind": kind, "hasher": "std",
                                   "universe": bk + ["z", "y", "x"], "steps": base, "probes": [], "wit": [],
                                   "sweep": {"ops": bops[j:j + 8], "classes": ["cmp", "cb", "hash"], "maxk": 80, "conts": bconts}})
+        # leaked guards (mem::forget of iter_mut / drain after every consumed prefix), then every continuation
+        for i, r in enumerate(mq["replay"]):
+            lk = []
+            for cnt in range(0, nitems + 1):
+                lk.append([{"op": "iter_mut", "n": cnt, "nb": (cnt % 2), "set": {keys[0]: maxp + 3, keys[-1]: -3}, "forget": True}])
+                lk.append([{"op": "iter_calls", "it": "iter_mut", "calls": [0] * cnt, "forget": True}])
+                lk.append([{"op": "iter_calls", "it": "drain", "calls": [0] * cnt + [1] * (cnt % 2), "forget": True}])
+            probes = [l + c for l in lk for c in conts]
+            cases.append({"case": [kind, "leak", i], "kind": kind, "hasher": "std", "universe": keys + ["z", "y", "x"],
+                          "steps": r["steps"], "probes": probes, "wit": []})
         f.samples.append({"engine": "D", "kind": kind, "example_state_history": mq["replay"][-1]["steps"],
                           "swept_operation": ops[0], "classes": ["cmp", "hash", "eq", "cb", "clone"],
                           "continuations": len(conts)})
